@@ -150,6 +150,12 @@ func c19RenderCase(r *fw.Rand, depth, wrap, padEntry, padCallee int, sameFile bo
 				wr(w, "filler<br>")
 			}
 		}
+		if lv == depth && r.Bool() {
+			// the same command, text for text, earlier in the file where it is not executed: positions belong to
+			// occurrences, not to texts
+			wr(w, "{if false}"+bad+"{/if}")
+			wr(w, "between")
+		}
 		var stmt string
 		if lv < depth {
 			nextNs := "na"
